@@ -1,6 +1,7 @@
 """Check driver: regenerate models from /repo, build the proof obligations, audit axioms, run the
 correspondence, replay known findings, search for a failing input when something broke, write evidence.
 See DESIGN.md section 4."""
+import glob
 import os
 import sys
 import re
@@ -380,6 +381,8 @@ def setup():
     ctx = Ctx('setup', 'quick', 0)
     with Lock():
         regenerate(ctx, SETUP_WANT)
+        for f in glob.glob(os.path.join(GEN, 'Corr_*')):      # per-check correspondence files are rewritten by their own check; stale ones must not break setup
+            os.remove(f)
         coq_makefile()
         rc, out, wall = sh('make -k -j16', 3600, cwd=COQ)
         print(out[-2000:])
